@@ -215,6 +215,41 @@ PROPS = {
                      'carried delta-max equals the fresh value because delta-max is composition-only (C03) and a rearrangement keeps the composition'],
         design_ref='2 / C17',
     ),
+    'C19': dict(
+        level='other',
+        functions=[SP + f for f in ('show_phaseDiagramPlot', 'save_phaseDiagramPlot', 'show_uverskyPlot', 'save_uverskyPlot',
+                                    'show_linearFCR', 'show_linearFCR#show', 'save_linearFCR', 'show_linearSigma', 'show_linearSigma#show', 'save_linearSigma',
+                                    'show_linearHydropathy', 'show_linearHydropathy#show', 'save_linearHydropathy')] +
+                  ['localcider/plots.py:' + f + t for f in ('show_multiple_phasePlot', 'save_multiple_phasePlot', 'show_multiple_uverskyPlot', 'save_multiple_uverskyPlot') for t in ('', '#labels')] +
+                  ['localcider/plots.py:' + f for f in ('show_single_phasePlot', 'save_single_phasePlot', 'show_single_uverskyPlot', 'save_single_uverskyPlot')],
+        lemmas=['count_partition', 'npos_nonneg', 'nneg_nonneg', 'nneut_nonneg', 'sum_ext'], extra=['C19'],
+        native='c19',
+        explanation='matplotlib is not modelled. PROVED about what is HANDED to it (calls into the library are recorded with their arguments by the executor): every entry point listed passes '
+                    '(f+, f-) resp. (mean net charge, Uversky hydropathy) of the sequence to scatter exactly once per sequence, the requested title to title(), [0, xLim] / [0, yLim] to xlim()/ylim(), '
+                    'returns the pyplot handle when getFig is set and calls show()/savefig() exactly once otherwise, and never raises for legal coordinates (the whole callee chain plots -> backend.plotting is inlined, '
+                    'so a dropped or shifted positional argument fails a named obligation); linear FCR/sigma/hydropathy plots hand bar() the position row 1..N and exactly the proved profile row. '
+                    'POLYGON THEOREM (QF_LRA, vertices read from the AST of finalize_DasPappu): every composition classified in region k by the thresholds proved in C08 lies in the closed polygon drawn for k, and the five interiors are pairwise disjoint. '
+                    'Rendering itself (that scatter/fill/bar/title do what their names say) is trusted; the bounded native check reads the artists back under the Agg back end',
+        assumptions=['matplotlib calls are recorded, not modelled (trusted rendering)', 'plots.*2 variants taking SequenceParameters lists and show_linearNCPR (loop over the returned bar container) are covered natively only',
+                     'multi-sequence entry points are proved for two sequences (with and without labels)'],
+        design_ref='2 / C19',
+    ),
+    'C18': dict(
+        level='other',
+        functions=['localcider/backend/wang_landau.py:WangLandauMachine.' + f for f in ('getBinSize', 'getBinCenters', 'indexInsideRelevantRegion', '__run_flatcheck')],
+        lemmas=['cnt_le', 'cnt_full'],
+        native='c18',
+        explanation='PROVED (for every machine state satisfying the geometry invariant): bin centres are the midpoints (i+1/2)/nbins of the equal partition of [0,1]; the range test is relevant_min <= idx <= relevant_max; '
+                    'the flat check declares flatness exactly when every bin of the range holds at least the criterion fraction of the mean count, and then (and only then) takes the square root of f, zeroes the histogram and advances the iteration, '
+                    'otherwise leaves H, f and the iteration untouched; it always resets the step counter. '
+                    'NOT under contract: the constructor\'s bin arithmetic (round/argmin on floats) and the loop body of run_normal_WL (acceptance, counting, logging) - these are checked by MONITORED RUNS: seeded recording RNGs are injected, '
+                    'every proposal is recorded and the whole bookkeeping (bins, acceptance with min(1, exp(g_old-g_new)), g/H updates, flat checks, f schedule, logs, DOS files, returned array) is re-executed independently '
+                    'from the recorded draws and compared step by step',
+        assumptions=['flat check: at least one count inside the range (sum of the local histogram > 0); the all-zero case (numpy NaN semantics) is covered by the monitored runs only',
+                     'text formatting/logging helpers (fprint*Vector, writeLog, mklog) have assumed contracts',
+                     'whole-run behaviour: bounded monitored runs (8 configurations x 2/12 seeded tapes), capped runs are inconclusive'],
+        design_ref='2 / C18',
+    ),
 }
 
 _BOUNDED_ONLY = ('deductive contracts for this property are not yet discharged in this build: the claim rests on the bounded native '
